@@ -18,6 +18,15 @@ REPL = [
     (r"ControlFlow::Break\(_\) =>", ["ControlFlow::Continue(_) =>"], "flow"),
     (r"\bu16::MAX\b", ["u8::MAX as u16"], "const"), (r"\bu32::MAX\b", ["u16::MAX as u32"], "const"),
     (r"\.is_empty\(\)", [".is_empty() == false"], "neg"),
+    (r"(?<=visit_tx_in\()i(?=,)", ["0"], "index"), (r"(?<=visit_tx_out\()i(?=,)", ["0"], "index"),
+    (r"(?<=visit_witness\()i(?=\))", ["0"], "index"), (r"(?<=visit_witness_element\()i(?=,)", ["0"], "index"),
+    (r"\.first\(\)", [".last()"], "firstlast"),
+    (r"from_le_bytes", ["from_be_bytes"], "endian"), (r"to_le_bytes", ["to_be_bytes"], "endian"),
+    (r"(?<=if )!", [""], "unneg"),
+    (r"\[(\w+)\.\.\]", ["[..\\1]"], "rangeswap"), (r"\[\.\.(\w+)\]", ["[\\1..]"], "rangeswap"),
+    (r"\.remaining\(\)", [".parsed().as_ref()"], "remview"),
+    (r"\binputs\b", ["outputs"], "swapvar"), (r"\boutputs\b", ["inputs"], "swapvar"),
+    (r"\bbegin\b", ["end"], "swapvar"), (r"\.begin\(\)", [".end()"], "swapvar"), (r"\.end\(\)", [".begin()"], "swapvar"),
 ]
 NUM = re.compile(r"(?<![\w#\"'])(0x[0-9A-Fa-f_]+|\d+)(?![\w\"'])(?!\.\d)(u8|u16|u32|u64|usize)?")
 mid = 0
@@ -53,7 +62,8 @@ for f in files:
                     continue
                 for new in news:
                     mid += 1
-                    print(json.dumps({"id": mid, "file": f, "line": i + 1, "col": m.start(), "old": m.group(0), "new": new, "kind": kind, "text": l.strip()[:120]}))
+                    newtxt = m.expand(new) if "\\" in new else new
+                    print(json.dumps({"id": mid, "file": f, "line": i + 1, "col": m.start(), "old": m.group(0), "new": newtxt, "kind": kind, "text": l.strip()[:120]}))
         for m in NUM.finditer(code):
             tok = m.group(1)
             try:
